@@ -448,6 +448,17 @@ func TestC04Exhaustive(t *testing.T) {
 			}
 		}
 	}
+	// Maurer on 10^6-bit shapes with very long distances (a source stuck for a long prefix, patterns that return after > 50000 blocks)
+	if shard == 0 {
+		for _, q := range []gen.Seq{{Family: "prefixconst", N: 1000000, A: 0, Seed: 31, Pos: []int{400000}}, {Family: "prefixconst", N: 1000000, A: 1, Seed: 32, Pos: []int{800000}},
+			{Family: "prefixconst", N: 1000000, A: 0, Seed: 33, Pos: []int{999000}}, {Family: "sparse", N: 1000000, Pos: []int{7, 500000, 999999}}, {Family: "nearflat", N: 1000000, Seed: 34, A: 10}} {
+			q := q
+			c := c04Case{Test: "maurer", Seq: &q, Runner: true}
+			if _, err := judge("C04", c, checkC04, false); err != nil {
+				t.Fatalf("C04: %v", err)
+			}
+		}
+	}
 	// the hostile shapes at the documented block lengths
 	for _, m := range []int{500, 1000, 5000} {
 		for _, k := range []string{"lastone", "firstone", "zero"} {
